@@ -72,3 +72,21 @@ use cgmath::*;
 #[inline(always)] pub fn vscale_n<const N: usize>(a: [R; N], s: R) -> [R; N] {
     let mut c = [R(0.0); N]; let mut i = 0; while i < N { c[i] = a[i] * s; i += 1; } c
 }
+/// Hamilton product written out (scalar first): oracle for C04.
+#[inline(always)] pub fn hamilton(p: Quaternion<R>, q: Quaternion<R>) -> Quaternion<R> {
+    let (a1, b1, c1, d1) = (p.s, p.v.x, p.v.y, p.v.z);
+    let (a2, b2, c2, d2) = (q.s, q.v.x, q.v.y, q.v.z);
+    Quaternion { s: a1 * a2 - b1 * b2 - c1 * c2 - d1 * d2,
+        v: Vector3 { x: a1 * b2 + b1 * a2 + c1 * d2 - d1 * c2, y: a1 * c2 - b1 * d2 + c1 * a2 + d1 * b2, z: a1 * d2 + b1 * c2 - c1 * b2 + d1 * a2 } }
+}
+#[inline(always)] pub fn qconj(q: Quaternion<R>) -> Quaternion<R> { Quaternion { s: q.s, v: Vector3 { x: R(0.0) - q.v.x, y: R(0.0) - q.v.y, z: R(0.0) - q.v.z } } }
+#[inline(always)] pub fn qnorm2(q: Quaternion<R>) -> R { q.s * q.s + q.v.x * q.v.x + q.v.y * q.v.y + q.v.z * q.v.z }
+#[inline(always)] pub fn v3(x: R, y: R, z: R) -> Vector3<R> { Vector3 { x, y, z } }
+/// The rotation matrix of a (unit) quaternion, written from the textbook formula, as m[c][r].
+#[inline(always)] pub fn qmat(q: Quaternion<R>) -> [[R; 3]; 3] {
+    let (w, x, y, z) = (q.s, q.v.x, q.v.y, q.v.z);
+    let two = R(2.0); let one = R(1.0);
+    [[one - two * (y * y + z * z), two * (x * y + w * z), two * (x * z - w * y)],
+     [two * (x * y - w * z), one - two * (x * x + z * z), two * (y * z + w * x)],
+     [two * (x * z + w * y), two * (y * z - w * x), one - two * (x * x + y * y)]]
+}
